@@ -670,6 +670,186 @@ fn repackrun_case(line: &str) -> String {
     format!("ok {} {} | {}", out.len(), out.join(" "), fmt_chunks(&chunks))
 }
 
+// ---------------------------------------------------------------------------- extremes
+/// packauto: tpe pack_size nspec { count idbase datalen ulen }
+/// blobs: id = id_from_u64(idbase + j), data[k] = (idbase + j + 3k) mod 256.  The real BasicPacker closes
+/// packs by its own should_save (count / size limit); every emitted pack is re-read by the real
+/// PackHeader::from_file with four hints.
+/// -> per pack `P prefix header_plain trailer enc_len file_len size blobs | none=.. exact=.. zero=.. max=..`
+fn packauto_case(line: &str) -> String {
+    let mut t = Toks::new(line);
+    let tpe = tpe_of(t.u());
+    let pack_size = t.u() as u32;
+    let nspec = t.u();
+    let mut ops = Vec::new();
+    for _ in 0..nspec {
+        let count = t.u();
+        let base = t.u();
+        let dl = t.u();
+        let ul = t.i();
+        for j in 0..count {
+            let v = base + j;
+            let data: Vec<u8> = (0..dl).map(|k| ((v + 3 * k) % 256) as u8).collect();
+            ops.push((data, id_from_u64(v), if ul < 0 { None } else { Some(ul as u32) }));
+        }
+    }
+    let key = key_of_seed(KEYSEED);
+    let packs = match guard(|| hk::basic_packer_run_auto(tpe, &key, pack_size, ops)) {
+        Err(e) => return e,
+        Ok(p) => p,
+    };
+    let mut parts = Vec::new();
+    for (file, ip) in packs {
+        let blen: usize = ip.blobs.iter().map(|b| hk::blob_fields(b).3 as usize).sum();
+        if file.len() < blen + 4 {
+            parts.push("P short".to_string());
+            continue;
+        }
+        let tr = u32::from_le_bytes(file[file.len() - 4..].try_into().unwrap());
+        let ct = &file[blen..file.len() - 4];
+        let pt = hk::decrypt_data(&key, ct).map_or("fail".to_string(), |p| hexs(&p));
+        let want = fmt_blobs(&ip.blobs);
+        let be = Arc::new(SliceBackend::default());
+        let id = id_of_seed(42);
+        let _ = be.packs.write().unwrap().insert(id, file.clone().into());
+        let flen = file.len() as u32;
+        let mut ff = Vec::new();
+        for (name, hint) in [("none", None), ("exact", Some(tr)), ("zero", Some(0)), ("max", Some(flen.saturating_sub(4)))] {
+            let dynbe: Arc<dyn WriteBackend> = be.clone();
+            let r = guard(|| hk::header_from_file(dynbe, &key, id, hint, flen));
+            let shown = match r {
+                Ok(b) => {
+                    let g = fmt_blobs(&b);
+                    if g == want { "same".to_string() } else { format!("ok:{}", g.replace(' ', ",")) }
+                }
+                Err(e) => e,
+            };
+            ff.push(format!("{name}={shown}"));
+        }
+        parts.push(format!(
+            "P {} {} {} {} {} {} {} | {}",
+            hexs(&file[..blen]),
+            pt,
+            tr,
+            ct.len(),
+            file.len(),
+            ip.size.map_or("-".to_string(), |s| s.to_string()),
+            want,
+            ff.join(" ")
+        ));
+    }
+    if parts.is_empty() { "none".to_string() } else { parts.join(" ; ") }
+}
+
+/// A storage that rejects the n-th pack upload.
+#[derive(Debug)]
+struct FlakyBackend {
+    inner: rustic_testing::backend::in_memory_backend::InMemoryBackend,
+    fail_at: std::sync::atomic::AtomicUsize,
+    pack_uploads: std::sync::atomic::AtomicUsize,
+}
+impl ReadBackend for FlakyBackend {
+    fn location(&self) -> String {
+        self.inner.location()
+    }
+    fn list_with_size(&self, tpe: FileType) -> RusticResult<Vec<(Id, u32)>> {
+        self.inner.list_with_size(tpe)
+    }
+    fn read_full(&self, tpe: FileType, id: &Id) -> RusticResult<Bytes> {
+        self.inner.read_full(tpe, id)
+    }
+    fn read_partial(&self, tpe: FileType, id: &Id, c: bool, offset: u32, length: u32) -> RusticResult<Bytes> {
+        self.inner.read_partial(tpe, id, c, offset, length)
+    }
+    fn warmup_path(&self, tpe: FileType, id: &Id) -> String {
+        self.inner.warmup_path(tpe, id)
+    }
+}
+impl WriteBackend for FlakyBackend {
+    fn create(&self) -> RusticResult<()> {
+        self.inner.create()
+    }
+    fn write_bytes(&self, tpe: FileType, id: &Id, c: bool, content: rustic_core::BytesList) -> RusticResult<()> {
+        use std::sync::atomic::Ordering;
+        if tpe == FileType::Pack {
+            let n = self.pack_uploads.fetch_add(1, Ordering::SeqCst) + 1;
+            if n == self.fail_at.load(Ordering::SeqCst) {
+                return Err(RusticError::new(ErrorKind::Backend, "injected fault: upload of pack rejected"));
+            }
+        }
+        self.inner.write_bytes(tpe, id, c, content)
+    }
+    fn remove(&self, tpe: FileType, id: &Id, c: bool) -> RusticResult<()> {
+        self.inner.remove(tpe, id, c)
+    }
+}
+
+/// failupload: k nchunks   — backup of `nchunks` distinct 2-byte chunks (fixed-size chunker) over a storage
+/// that rejects the k-th pack upload; then every pack listed by a persisted index file must be stored.
+/// -> `backup=<ok|err> packs=<n> indexfiles=<n> indexed=<n> phantom=<n> [first phantom pack id:blobs]`
+fn failupload_case(line: &str) -> String {
+    use rustic_core::repofile::{Chunker, IndexFile, SnapshotFile};
+    use rustic_core::{BackupOptions, ConfigOptions, Credentials, KeyOptions, PathList, Repository, RepositoryBackends, RepositoryOptions};
+    use std::sync::atomic::{AtomicUsize, Ordering};
+    let mut t = Toks::new(line);
+    let k = t.u() as usize;
+    let nchunks = t.u() as u32;
+    let run = || -> anyhow::Result<String> {
+        let be = Arc::new(FlakyBackend {
+            inner: rustic_testing::backend::in_memory_backend::InMemoryBackend::new(),
+            fail_at: AtomicUsize::new(0),
+            pack_uploads: AtomicUsize::new(0),
+        });
+        let bes = RepositoryBackends::new(be.clone(), None);
+        let opts = RepositoryOptions::default();
+        let creds = Credentials::Masterkey(MasterKey::new());
+        let repo = Repository::new(&opts, &bes)?.init(
+            &creds,
+            &KeyOptions::default(),
+            &ConfigOptions::default()
+                .set_chunker(Chunker::FixedSize)
+                .set_chunk_size(bytesize::ByteSize::b(2))
+                .set_extra_verify(false),
+        )?;
+        let src = tempfile::tempdir()?;
+        let root = src.path().canonicalize()?;
+        let content: Vec<u8> = (0..nchunks).flat_map(|v| (v as u16).to_le_bytes()).collect();
+        std::fs::write(root.join("data.bin"), &content)?;
+        let paths = PathList::from_iter(Some(root.clone()));
+        be.pack_uploads.store(0, Ordering::SeqCst);
+        be.fail_at.store(k, Ordering::SeqCst);
+        let ir = repo.to_indexed_ids()?;
+        let res = ir.backup(&BackupOptions::default(), &paths, SnapshotFile::default());
+        be.fail_at.store(0, Ordering::SeqCst);
+        let repo = Repository::new(&opts, &bes)?.open(&creds)?;
+        let stored: std::collections::BTreeSet<Id> = be.list_with_size(FileType::Pack)?.into_iter().map(|x| x.0).collect();
+        let (mut nix, mut indexed, mut phantom, mut first) = (0, 0, 0, String::new());
+        for index in repo.stream_files::<IndexFile>()? {
+            let (_id, index) = index?;
+            nix += 1;
+            for pack in index.packs {
+                indexed += 1;
+                if !stored.contains(&*pack.id) {
+                    phantom += 1;
+                    if first.is_empty() {
+                        first = format!(" {}:{}", pack.id.to_hex().as_str(), pack.blobs.len());
+                    }
+                }
+            }
+        }
+        Ok(format!(
+            "backup={} packs={} indexfiles={nix} indexed={indexed} phantom={phantom}{first}",
+            if res.is_ok() { "ok" } else { "err" },
+            stored.len()
+        ))
+    };
+    match catch_unwind(AssertUnwindSafe(run)) {
+        Ok(Ok(s)) => s,
+        Ok(Err(e)) => format!("error {}", e.to_string().replace('\n', " ")),
+        Err(_) => "panic".to_string(),
+    }
+}
+
 fn main() {
     let args: Vec<String> = std::env::args().collect();
     let mode = args.get(2).map_or("codec", |s| s.as_str()).to_string();
@@ -679,6 +859,8 @@ fn main() {
         "fromfile" => for_each_case(fromfile_case),
         "build" => for_each_case(build_case),
         "packer" => for_each_case(packer_case),
+        "packauto" => for_each_case(packauto_case),
+        "failupload" => for_each_case(failupload_case),
         "coalesce" => for_each_case(coalesce_case),
         "coalloc" => for_each_case(coalloc_case),
         "encblobs" => for_each_case(encblobs_case),
